@@ -16,6 +16,15 @@
 //                                             the agent's own calls: build_request; prints the
 //                                             built request (method, target, headers, body)
 //
+//   R <calls>                                 the agent's own calls under a rotating key: the real
+//                                             WireServerClient::get_goalstate / get_shared_config and
+//                                             ImdsClient::get_imds_instance_info run <calls> times each
+//                                             against a raw-socket mock host while a task latches two keys
+//                                             alternately (KeyKeeperSharedState::update_key, a yield
+//                                             between updates); prints every request the host received and
+//                                             the two keys, so that the check can verify each request under
+//                                             the key NAMED in its authorization header
+//
 // Every library rejection is reported distinctly ({"reject": "..."}) so that the model is never
 // asked about an input the code does not see; a panic inside the code under test is caught and
 // reported as {"panic": true} (header values with a byte >= 0x80: C13's subject, F7).
@@ -245,9 +254,142 @@ fn op_b<'a>(it: &mut impl Iterator<Item = &'a str>, rt: &tokio::runtime::Runtime
     r.unwrap_or_else(|_| json!({"panic": true}))
 }
 
+const ROT_KEYS: [(&str, &str); 2] = [
+    (
+        "11111111-c04c-4c04-8c04-c04c04c04c04",
+        "4A404E635266556A586E3272357538782F413F4428472B4B6250645367566B59",
+    ),
+    (
+        "22222222-c04c-4c04-8c04-c04c04c04c04",
+        "7134743777217a25432a462d4a614e645267556b58703273357638792f423f45",
+    ),
+];
+
+fn find(hay: &[u8], needle: &[u8]) -> Option<usize> {
+    hay.windows(needle.len()).position(|w| w == needle)
+}
+
+/// raw-socket mock host: records (head bytes, body bytes) of every request, answers 503
+fn start_mock_host() -> (u16, std::sync::mpsc::Receiver<(Vec<u8>, Vec<u8>)>) {
+    use std::io::Read;
+    let listener = std::net::TcpListener::bind((std::net::Ipv4Addr::LOCALHOST, 0)).unwrap();
+    let port = listener.local_addr().unwrap().port();
+    let (tx, rx) = std::sync::mpsc::channel();
+    std::thread::spawn(move || {
+        for stream in listener.incoming() {
+            let mut stream = match stream {
+                Ok(s) => s,
+                Err(_) => return,
+            };
+            let tx = tx.clone();
+            std::thread::spawn(move || {
+                let mut buf: Vec<u8> = Vec::new();
+                let mut tmp = [0u8; 4096];
+                loop {
+                    let head_end = loop {
+                        if let Some(p) = find(&buf, b"\r\n\r\n") {
+                            break p;
+                        }
+                        match stream.read(&mut tmp) {
+                            Ok(0) | Err(_) => return,
+                            Ok(n) => buf.extend_from_slice(&tmp[..n]),
+                        }
+                    };
+                    let head = buf[..head_end].to_vec();
+                    let cl = String::from_utf8_lossy(&head)
+                        .split("\r\n")
+                        .filter_map(|l| l.split_once(':'))
+                        .find(|(n, _)| n.eq_ignore_ascii_case("content-length"))
+                        .and_then(|(_, v)| v.trim().parse::<usize>().ok())
+                        .unwrap_or(0);
+                    while buf.len() < head_end + 4 + cl {
+                        match stream.read(&mut tmp) {
+                            Ok(0) | Err(_) => return,
+                            Ok(n) => buf.extend_from_slice(&tmp[..n]),
+                        }
+                    }
+                    let body = buf[head_end + 4..head_end + 4 + cl].to_vec();
+                    buf.drain(..head_end + 4 + cl);
+                    let _ = tx.send((head, body));
+                    if stream
+                        .write_all(b"HTTP/1.1 503 Service Unavailable\r\nContent-Length: 0\r\n\r\n")
+                        .is_err()
+                    {
+                        return;
+                    }
+                }
+            });
+        }
+    });
+    (port, rx)
+}
+
+fn op_r<'a>(it: &mut impl Iterator<Item = &'a str>, rt: &tokio::runtime::Runtime) -> Value {
+    use gpa::host_clients::imds_client::ImdsClient;
+    use gpa::host_clients::wire_server_client::WireServerClient;
+    use gpa::key_keeper::key::Key;
+    use gpa::shared_state::key_keeper_wrapper::KeyKeeperSharedState;
+    use std::sync::atomic::{AtomicBool, Ordering};
+    use std::sync::Arc;
+    let calls: usize = it.next().unwrap().parse().unwrap();
+    let (port, received) = start_mock_host();
+    let key = |n: usize| -> Key {
+        let mut k = Key::empty();
+        k.guid = ROT_KEYS[n].0.to_string();
+        k.key = ROT_KEYS[n].1.to_string();
+        k.incarnationId = Some(n as u32 + 1);
+        k
+    };
+    let r = catch_unwind(AssertUnwindSafe(|| {
+        rt.block_on(async {
+            let state = KeyKeeperSharedState::start_new();
+            state.update_key(key(0)).await.unwrap();
+            let stop = Arc::new(AtomicBool::new(false));
+            let rotator = tokio::spawn({
+                let state = state.clone();
+                let stop = stop.clone();
+                async move {
+                    let mut n = 0usize;
+                    while !stop.load(Ordering::SeqCst) {
+                        n += 1;
+                        let _ = state.update_key(key(n % 2)).await;
+                        tokio::task::yield_now().await;
+                    }
+                    n
+                }
+            });
+            let ws = WireServerClient::new("127.0.0.1", port, state.clone());
+            let imds = ImdsClient::new("127.0.0.1", port, state.clone());
+            for i in 0..calls {
+                let _ = ws.get_goalstate().await;
+                let _ = ws
+                    .get_shared_config(format!("http://127.0.0.1:{}/machine/x?comp=config&type=sharedConfig&incarnation={}", port, i))
+                    .await;
+                let _ = imds.get_imds_instance_info().await;
+            }
+            stop.store(true, Ordering::SeqCst);
+            rotator.await.unwrap_or(0)
+        })
+    }));
+    let rotations = match r {
+        Ok(n) => n,
+        Err(_) => return json!({"panic": true}),
+    };
+    std::thread::sleep(std::time::Duration::from_millis(50));
+    let mut reqs = Vec::new();
+    while let Ok((head, body)) = received.try_recv() {
+        reqs.push(json!({"head": hx(&head), "body": hx(&body)}));
+    }
+    json!({
+        "requests": reqs,
+        "rotations": rotations,
+        "keys": ROT_KEYS.iter().map(|(g, k)| json!([g, k])).collect::<Vec<_>>(),
+    })
+}
+
 fn main() {
     std::panic::set_hook(Box::new(|_| {}));
-    let rt = tokio::runtime::Builder::new_current_thread().build().unwrap();
+    let rt = tokio::runtime::Builder::new_current_thread().enable_all().build().unwrap();
     let stdin = io::stdin();
     let stdout = io::stdout();
     let mut out = io::BufWriter::new(stdout.lock());
@@ -259,6 +401,7 @@ fn main() {
             Some("H") => op_h(&mut it),
             Some("S") => op_s(&mut it),
             Some("B") => op_b(&mut it, &rt),
+            Some("R") => op_r(&mut it, &rt),
             _ => json!({"bad_line": true}),
         };
         writeln!(out, "{}", v).unwrap();
